@@ -159,7 +159,7 @@ def eval_group(arg):
                 open(os.path.join(d, "leftover"), "w").write("unrecorded leftover")
                 shutil.copy(good, arch)
             elif kind == "stale-tmp":
-                st = os.path.join(dst.root, "cond-out", "archive-tmp")
+                st = os.path.join(dst.root, "cond-out", realrun.staging_name())
                 os.makedirs(os.path.join(st, "zz", "old.task.3"), exist_ok=True)
                 open(os.path.join(st, "junk"), "w").write("stale")
                 shutil.copy(good, arch)
@@ -167,7 +167,7 @@ def eval_group(arg):
             elif kind == "stale-tmp-other-archive":
                 # an earlier restore of a DIFFERENT archive was killed while extracting: its index and
                 # directories are still in cond-out/archive-tmp
-                st = os.path.join(dst.root, "cond-out", "archive-tmp")
+                st = os.path.join(dst.root, "cond-out", realrun.staging_name())
                 os.makedirs(st, exist_ok=True)
                 other = statecheck.std_project(sc.sub("other%d" % rng.randrange(10 ** 6)), name="o")
                 other.cond(["run", "//c-d:e4"], timeout=60, clock=[1_400_000_000])
@@ -198,7 +198,7 @@ def eval_group(arg):
             if fault.get("stale_staging"):
                 # an earlier restore of the INTACT archive was killed while extracting: cond-out/archive-tmp still holds
                 # its index and directories; what is restored now is the damaged copy, and only its content counts
-                st = os.path.join(dst.root, "cond-out", "archive-tmp")
+                st = os.path.join(dst.root, "cond-out", realrun.staging_name())
                 os.makedirs(st, exist_ok=True)
                 subprocess.run(["tar", "xzf", good, "-C", st], check=False)
                 bump("c12_damaged_archive_after_killed_restore_of_intact_one")
